@@ -14,11 +14,7 @@ CLASSES = ('legacy_security_connection_data', 'lesc_security_connection_data', '
 KEYFIELDS = {'short_term_key', 'long_term_key_'}
 
 
-def run(chk, facts, tier):
-    chk.rule('find-key-guard', 'find_key returns {true, key} only under state() == pairing_completed && ediv == 0 && rand == 0, and an empty pair otherwise', floor=3)
-    chk.rule('key-writers', 'the key fields are stored only by legacy_pairing_completed / lesc_pairing_completed from their argument, together with the pairing_completed state', floor=3)
-    chk.rule('completion-callers', 'legacy_pairing_completed is called only behind the confirm-value check, lesc_pairing_completed only behind the DHKey (Ea) check', floor=2)
-    chk.rule('bond-db-fallback', 'bonding_db_data_t::find_key returns the connection\'s own key first and otherwise obj.find_key(ediv, rand, remote_address())', floor=1)
+def find_key_guard(chk, facts, rule='find-key-guard'):
     for cls in CLASSES:
         for fn in variants(facts, 'bluetoe::details::%s::find_key' % cls, chk):
             pos = neg = 0
@@ -46,7 +42,15 @@ def run(chk, facts, tier):
                     if elems and first not in (None, 0):
                         ok, why = False, 'unexpected return'
             ok = ok and pos == 1 and neg >= 1
-            chk.instance('find-key-guard', fn, cls + '::find_key', ok, why or ('' if ok else 'expected one guarded positive return and a negative default'), key=cls)
+            chk.instance(rule, fn, cls + '::find_key', ok, why or ('' if ok else 'expected one guarded positive return and a negative default'), key=cls)
+
+
+def run(chk, facts, tier):
+    chk.rule('find-key-guard', 'find_key returns {true, key} only under state() == pairing_completed && ediv == 0 && rand == 0, and an empty pair otherwise', floor=3)
+    chk.rule('key-writers', 'the key fields are stored only by legacy_pairing_completed / lesc_pairing_completed from their argument, together with the pairing_completed state', floor=3)
+    chk.rule('completion-callers', 'legacy_pairing_completed is called only behind the confirm-value check, lesc_pairing_completed only behind the DHKey (Ea) check', floor=2)
+    chk.rule('bond-db-fallback', 'bonding_db_data_t::find_key returns the connection\'s own key first and otherwise obj.find_key(ediv, rand, remote_address())', floor=1)
+    find_key_guard(chk, facts)
     # writers of key fields
     for fld in KEYFIELDS:
         for fn, tgt, op, val, st in field_stores(facts, fld, 'bluetoe::details::'):
